@@ -7439,6 +7439,10 @@ def aten_native_layer_norm(
     result, mean, rdenominator = op.LayerNormalization(
         input, weight, bias, axis=start_axis, epsilon=eps
     )
+    if input.dtype == ir.DataType.DOUBLE:
+        # LayerNormalization stashes Mean / InvStdDev as float32; PyTorch returns them in the input's type
+        mean = op.CastLike(mean, input)
+        rdenominator = op.CastLike(rdenominator, input)
 
     return result, mean, rdenominator
 
